@@ -4,6 +4,7 @@ import (
 	"fmt"
 	"go/token"
 	"go/types"
+	"strings"
 
 	"golang.org/x/tools/go/ssa"
 )
@@ -22,6 +23,7 @@ const (
 type deferred struct {
 	Fn   *Closure // callee (closure or plain function)
 	Args []Value
+	Pos  token.Pos // the defer statement
 	// for invoke-mode defers the method is resolved at defer time
 }
 
@@ -89,6 +91,22 @@ type decision struct {
 	Val  int
 	Prev *decision
 	N    int
+	T    *schedInfo // scheduling decisions: the transition in structured form (native replay)
+}
+
+// schedInfo describes one granted transition for the native schedule replay.
+type schedInfo struct {
+	G          uint32
+	Kind       opKind
+	Pos        token.Pos
+	Case       int
+	Partner    uint32
+	PCase      int
+	PartnerPos token.Pos
+	// Stub: the operation executes inside engine-only stub code (zz_verif_stubs.go or a
+	// //verif:stub body); Caller is then the call site in the innermost frame outside it.
+	Stub   bool
+	Caller token.Pos
 }
 
 type State struct {
@@ -351,6 +369,8 @@ type fnInfo struct {
 	pkgPath string
 	stubFor string
 	atomic  bool
+	// stubfile: defined in zz_verif_stubs.go (engine-only models; absent from native builds)
+	stubfile bool
 }
 
 func (e *Engine) info(fn *ssa.Function) *fnInfo {
@@ -401,6 +421,7 @@ func (e *Engine) info(fn *ssa.Function) *fnInfo {
 		file := e.prog.Fset.Position(pos).Filename
 		if e.overlayFiles[file] {
 			fi.overlay = true
+			fi.stubfile = strings.HasSuffix(file, "zz_verif_stubs.go")
 		} else if len(file) >= len(e.cfg.RepoDir) && file[:len(e.cfg.RepoDir)] == e.cfg.RepoDir {
 			fi.repo = true
 		}
